@@ -16,18 +16,18 @@ package main
 // and a panic (“send on closed channel”, …) is observed as the child's exit.
 
 import (
-	"context"
 	"encoding/json"
 	"fmt"
 	"io"
 	"math/rand"
-	"os"
 	"runtime"
 	"sort"
 	"strings"
 	"sync"
 	"sync/atomic"
 	"time"
+
+	"github.com/pkg/sftp"
 
 	"verifharness/lib"
 	"verifharness/peers"
@@ -46,6 +46,13 @@ type c04Case struct {
 	Err    string `json:"errv,omitempty"` // the error value the failing transport returns (cliErrKinds; "" = the historical fixed value)
 	Racers int    `json:"racers"`
 	Seed   int64  `json:"seed,omitempty"`
+	// Via "ssh": the Client is made by sftp.NewClient over an in-process SSH connection (cli_ssh.go) instead of
+	// NewClientPipe over pipes. Faults then: cut = the server sends Exit (exit0 | exit3 | "" none) and closes the
+	// channel after At reply bytes; err = the TCP connection is dropped after At reply bytes; failinput = the
+	// channel is closed after At requests.
+	Via  string `json:"via,omitempty"`
+	Exit string `json:"exit,omitempty"`
+	Opt    string `json:"opt,omitempty"` // option variant (cli_ops.go: which MaxPacket constructor, UseFstat, UseConcurrentReads/Writes, MaxConcurrentRequestsPerFile); "" = MaxPacketUnchecked + the operation's own options
 }
 
 type c04Call struct {
@@ -95,12 +102,13 @@ func c04Child(idx int, raw json.RawMessage) (any, bool) {
 
 var c04DryCache = map[string]*c04Res{}
 
-func c04Dry(op string) *c04Res {
-	if d, ok := c04DryCache[op]; ok {
+func c04Dry(op, variant string) *c04Res {
+	key := cliOpKey(op, variant)
+	if d, ok := c04DryCache[key]; ok {
 		return d
 	}
-	r := c04Run(c04Case{Op: op, Fault: "none"}, false)
-	c04DryCache[op] = &r
+	r := c04Run(c04Case{Op: op, Fault: "none", Opt: variant}, false)
+	c04DryCache[key] = &r
 	return &r
 }
 
@@ -117,67 +125,9 @@ func c04Optional(op string, typ byte, off uint64) bool {
 	return false
 }
 
-// ---------- operations of C04 only: multi-batch listings and the composites built on them ----------
-
-// c04Tree: "dir" is listed in three batches (".", ".." and a file; a sub-directory and a file; a file), then EOF;
-// "dir/sub" in two.
-func c04Tree() map[string][][]wire.NameEnt {
-	d := func(name string) wire.NameEnt {
-		return wire.NameEnt{Name: name, Long: "drwxr-xr-x 1 u g 0 Jan 1 00:00 " + name, A: wire.St{Flags: wire.ASize | wire.APerm, Perm: 0o40755}}
-	}
-	f := func(name string, size uint64) wire.NameEnt {
-		return wire.NameEnt{Name: name, Long: "-rw-r--r-- 1 u g 0 Jan 1 00:00 " + name, A: wire.St{Flags: wire.ASize | wire.APerm, Size: size, Perm: 0o100644}}
-	}
-	return map[string][][]wire.NameEnt{
-		"dir":     {{d("."), d(".."), f("alpha", 40)}, {d("sub"), f("beta", 7)}, {f("gamma", 1)}},
-		"dir/sub": {{f("delta", 2)}, {f("epsilon", 3)}},
-	}
-}
-
-func c04Ops() []cliOp {
-	tree := func(f *fakeSrv) { f.tree = c04Tree() }
-	list := func(fis []os.FileInfo) string {
-		var s []string
-		for _, fi := range fis {
-			s = append(s, fmt.Sprintf("%s:%d:%v", fi.Name(), fi.Size(), fi.IsDir()))
-		}
-		return strings.Join(s, ",")
-	}
-	extra := []cliOp{
-		{Name: "ReadDir-batches", Fake: tree, Run: func(e *cliOpEnv) (string, error) {
-			fis, err := e.c.ReadDir("dir")
-			return list(fis), err
-		}},
-		{Name: "ReadDirContext-batches", Fake: tree, Run: func(e *cliOpEnv) (string, error) {
-			ctx, cancel := context.WithCancel(context.Background())
-			defer cancel()
-			fis, err := e.c.ReadDirContext(ctx, "dir/sub")
-			return list(fis), err
-		}},
-		{Name: "Walk-tree", Fake: tree, Run: func(e *cliOpEnv) (string, error) {
-			// the walker hands out errors step by step: the operation's result is every path visited and the first error
-			w := e.c.Walk("dir")
-			var seen []string
-			var first error
-			for n := 0; n < 1000 && w.Step(); n++ {
-				if err := w.Err(); err != nil {
-					if first == nil {
-						first = err
-					}
-					continue
-				}
-				seen = append(seen, w.Path())
-			}
-			return strings.Join(seen, ","), first
-		}},
-		{Name: "Glob-tree", Fake: tree, Run: func(e *cliOpEnv) (string, error) {
-			m, err := e.c.Glob("dir/*/*")
-			return strings.Join(m, ","), err
-		}},
-		{Name: "RemoveAll-tree", Fake: tree, Run: func(e *cliOpEnv) (string, error) { return "", e.c.RemoveAll("dir") }},
-	}
-	return append(cliOps(), extra...)
-}
+// c04Ops: the operation table of cli_ops.go (shared with C20), including the multi-batch listings and the
+// composites built on them.
+func c04Ops() []cliOp { return cliOps() }
 
 func c04OpByName(name string) *cliOp {
 	for _, o := range c04Ops() {
@@ -217,6 +167,12 @@ func c04Run(cs c04Case, checkGoroutines bool) (res c04Res) {
 	if family != "opaque" {
 		fkey += "/errv:" + family
 	}
+	if cs.Via == "ssh" {
+		fkey = "ssh/" + cs.Fault
+		if cs.Fault == "cut" {
+			fkey += "/" + map[bool]string{true: "no-exit-status", false: cs.Exit}[cs.Exit == ""]
+		}
+	}
 	rng := rand.New(rand.NewSource(cs.Seed))
 	fake := newFakeSrv(cliFileSize)
 	if op.Fake != nil {
@@ -229,11 +185,31 @@ func c04Run(cs c04Case, checkGoroutines bool) (res c04Res) {
 	if cs.Fault == "failwrite" {
 		passN = cs.At
 	}
-	client, peer, err := newFaultClient(cliVersion(), passN, ferr, func(call int) {
-		mu.Lock()
-		trace = append(trace, fmt.Sprintf("write-call#%d fails: %v", call, ferr))
-		mu.Unlock()
-	}, cliClientOpts(op)...)
+	copts, oerr := cliClientOptsVar(op, cs.Opt)
+	if oerr != nil {
+		fail("tie/unknown-option-variant", oerr.Error(), nil)
+		return
+	}
+	var client *sftp.Client
+	var peer c04Peer
+	var err error
+	if cs.Via == "ssh" {
+		stderrText := ""
+		if cs.Seed%2 == 1 || strings.Contains(cs.Opt, "copy-stderr") {
+			stderrText = "sftp-server: a line on stderr\n"
+		}
+		var sp *sshPeer
+		client, sp, err = newSSHClient(cliVersion(), cs.Exit, stderrText, copts...)
+		peer = sp
+	} else {
+		var fp *faultPeer
+		client, fp, err = newFaultClient(cliVersion(), passN, ferr, func(call int) {
+			mu.Lock()
+			trace = append(trace, fmt.Sprintf("write-call#%d fails: %v", call, ferr))
+			mu.Unlock()
+		}, copts...)
+		peer = fp
+	}
 	if err != nil {
 		fail("tie/new-client", err.Error(), nil)
 		return
@@ -277,7 +253,7 @@ func c04Run(cs c04Case, checkGoroutines bool) (res c04Res) {
 	srvDone := make(chan struct{})
 	go func() {
 		defer close(srvDone)
-		for p := range peer.Reqs {
+		for p := range peer.Requests() {
 			q, derr := cliDecodeReq(p)
 			// A request is attributed to its call by content, never by arrival time: a caller may return
 			// (on the broadcast error) before this goroutine has dequeued all of its requests.
@@ -543,7 +519,7 @@ func c04Run(cs c04Case, checkGoroutines bool) (res c04Res) {
 	mu.Lock()
 	defer mu.Unlock()
 	res.NReq = nreq
-	res.NWrites, _ = peer.W.counts()
+	res.NWrites, _ = peer.WriteCounts()
 	res.Trace = trace
 	for _, rec := range recs {
 		if !rec.delivered {
@@ -552,7 +528,7 @@ func c04Run(cs c04Case, checkGoroutines bool) (res c04Res) {
 	}
 	var dry *c04Res
 	if cs.Fault != "none" {
-		dry = c04Dry(cs.Op)
+		dry = c04Dry(cs.Op, cs.Opt)
 	}
 	for i := range res.Calls[:nScenario] {
 		c := &res.Calls[i]
@@ -718,12 +694,40 @@ func c04Run(cs c04Case, checkGoroutines bool) (res c04Res) {
 func checkC04(c *lib.Ctx) {
 	r := c.R
 	thorough := c.Tier == "thorough"
-	r.Rule = "scenario = [open] + one operation + [File.Close] on a real Client against a fake server, with 0…8 racing goroutines that keep starting Stat/Lstat/ReadLink/RealPath/Mkdir on the same Client. Operations: cmd/vh/cli_ops.go (single calls; ReadDir; single-chunk, sequential and concurrent multi-chunk ReadAt/WriteTo/WriteAt/Write/ReadFrom) and c04Ops (ReadDir/ReadDirContext over several READDIR batches, Walk, Glob and RemoveAll over a two-level tree). Faults: reply stream ended by EOF (cut) or by a Read error (err) after N bytes — thorough: every N in 0…len(stream); quick: every frame boundary −1/0/+1 and PRNG offsets —; client→server stream closed by the peer after k requests (failinput), every k; the client's k-th Write call and every later one fail while the reply stream stays alive (failwrite), every k (header and payload writes are separate calls). ERROR VALUES of the failing Read/Write: the table cliErrKinds (opaque sentinel and type, io.EOF, %w-wrapped / doubly wrapped / *net.OpError-wrapped / Is-method / errors.Join'ed EOF, io.ErrUnexpectedEOF plain and wrapped, io.ErrClosedPipe, os.ErrClosed in *os.PathError, net.ErrClosed, os.ErrDeadlineExceeded plain and in *net.OpError, EPIPE / ECONNRESET in *net.OpError, bare EPIPE): failinput and failwrite × every k × every value (quick, single-request operations: one value per family + 2 rotating); err × every offset × one rotating value plus every value at 4 offsets (thorough: every offset × every value). With racers: PRNG offsets, values and seeds. Oracles: a call with a request whose reply was not delivered completely, or that could not be written, returns a non-nil error (never a truncated success; Glob, which documents that it swallows I/O errors, exempt); a call whose replies were all delivered returns the result of the fault-free run; Stat, ReadDir, File.ReadAt, File.WriteAt started after the fault fail; nothing hangs (20 s); Wait and Close return; the goroutine table is polled ≤ 5 s for goroutines created by pkg/sftp. Non-trivial = fault injected; distinct by (operation, fault, offset, error value, racers, seed)."
+	r.Rule = "scenario = [open] + one operation + [File.Close] on a real Client against a fake server, with 0…8 racing goroutines that keep starting Stat/Lstat/ReadLink/RealPath/Mkdir on the same Client. Operations: cmd/vh/cli_ops.go (single calls; ReadDir; single-chunk, sequential and concurrent multi-chunk ReadAt/WriteTo/WriteAt/Write/ReadFrom incl. readers with Len/Size/Stat/*io.LimitedReader and ReadFromWithConcurrency 0/2/1000; ReadDir/ReadDirContext over several READDIR batches, Walk, Glob, RemoveAll and MkdirAll over a two-level tree). Option variants: every operation under MaxPacketUnchecked (default), MaxPacketChecked, the MaxPacket alias and UseFstat(true); the transfers also under their own variants (UseFstat on/off, UseConcurrentReads false/true, UseConcurrentWrites true/false, MaxConcurrentRequestsPerFile 1/2 and combinations: the table Vars in cli_ops.go) — quick: default variant at full density, own variants at frame boundaries −1/0/+1, universal variants at frame boundaries; thorough: default and own variants at every byte offset, universal variants at the quick density; the fault-free run of every variant must return the same results as the default one. Family ssh: the same scenarios on a Client made by sftp.NewClient over an in-process x/crypto/ssh connection (loopback TCP; session stdin as writer, stderr copier with and without CopyStderrTo, Wait asking the session): the server sends exit-status 0 / 3 / none and closes the channel after N reply bytes, the TCP connection is dropped after N reply bytes, or the channel is closed after k requests; 9 operations (thorough: all). Faults: reply stream ended by EOF (cut) or by a Read error (err) after N bytes — thorough: every N in 0…len(stream); quick: every frame boundary −1/0/+1 and PRNG offsets —; client→server stream closed by the peer after k requests (failinput), every k; the client's k-th Write call and every later one fail while the reply stream stays alive (failwrite), every k (header and payload writes are separate calls). ERROR VALUES of the failing Read/Write: the table cliErrKinds (opaque sentinel and type, io.EOF, %w-wrapped / doubly wrapped / *net.OpError-wrapped / Is-method / errors.Join'ed EOF, io.ErrUnexpectedEOF plain and wrapped, io.ErrClosedPipe, os.ErrClosed in *os.PathError, net.ErrClosed, os.ErrDeadlineExceeded plain and in *net.OpError, EPIPE / ECONNRESET in *net.OpError, bare EPIPE): failinput and failwrite × every k × every value (quick, single-request operations: one value per family + 2 rotating); err × every offset × one rotating value plus every value at 4 offsets (thorough: every offset × every value). With racers: PRNG offsets, values and seeds. Oracles: a call with a request whose reply was not delivered completely, or that could not be written, returns a non-nil error (never a truncated success; Glob, which documents that it swallows I/O errors, exempt); a call whose replies were all delivered returns the result of the fault-free run; Stat, ReadDir, File.ReadAt, File.WriteAt started after the fault fail; nothing hangs (20 s); Wait and Close return; the goroutine table is polled ≤ 5 s for goroutines created by pkg/sftp. Non-trivial = fault injected; distinct by (operation, fault, offset, error value, racers, seed)."
 	workers := runtime.NumCPU()
 	if workers > 16 {
 		workers = 16
 	}
-	ops := c04Ops()
+	// the (operation, option variant) pairs and how densely each is explored:
+	//   level 3 thorough-full, 2 quick-full, 1 medium, 0 light
+	// thorough: the operation's default and its own variants 3, the universal variants 2
+	// quick:    default 2, own variants 1, universal variants 0
+	type pair struct {
+		op      cliOp
+		variant string
+		level   int
+	}
+	var pairs []pair
+	universal := map[string]bool{}
+	for _, v := range cliUniversalVars {
+		universal[v] = true
+	}
+	for _, op := range c04Ops() {
+		for _, v := range cliOpVariants(op) {
+			lvl := 1
+			switch {
+			case v == "":
+				lvl = 2
+			case universal[v]:
+				lvl = 0
+			}
+			if thorough {
+				lvl = map[int]int{2: 3, 1: 3, 0: 2}[lvl]
+			}
+			pairs = append(pairs, pair{op, v, lvl})
+		}
+	}
 	// the error values; "custom" is the historical fixed value, written "" in the cases
 	var wkinds, rkinds []string
 	for _, k := range cliErrKinds("write") {
@@ -753,8 +757,8 @@ func checkC04(c *lib.Ctx) {
 		cases = []c04Case{one}
 	} else {
 		var dryRaw []json.RawMessage
-		for _, op := range ops {
-			b, _ := json.Marshal(c04Case{Op: op.Name, Fault: "none"})
+		for _, p := range pairs {
+			b, _ := json.Marshal(c04Case{Op: p.op.Name, Fault: "none", Opt: p.variant})
 			dryRaw = append(dryRaw, b)
 		}
 		results, deaths, err := cliRunPool("c04", nil, dryRaw, workers, 120*time.Second, nil)
@@ -762,14 +766,18 @@ func checkC04(c *lib.Ctx) {
 			r.Fail(lib.Failure{Kind: "tie", Key: "child-start", What: err.Error()})
 			return
 		}
-		for i, op := range ops {
+		dryDefault := map[string]c04Res{} // operation -> its fault-free run under the default options
+		for i, p := range pairs {
+			op := p.op
+			none := c04Case{Op: op.Name, Fault: "none", Opt: p.variant}
+			okey := cliOpKey(op.Name, p.variant)
 			if deaths[i] != nil || results[i] == nil {
-				r.Fail(lib.Failure{Kind: "oracle", Key: "valid-run/" + op.Name, What: "child died on a run without fault", Input: c04Case{Op: op.Name, Fault: "none"}, Actual: deaths[i]})
+				r.Fail(lib.Failure{Kind: "oracle", Key: "valid-run/" + okey, What: "child died on a run without fault", Input: none, Actual: deaths[i]})
 				continue
 			}
 			var d c04Res
 			json.Unmarshal(results[i], &d)
-			r.Case("dry/"+op.Name, false)
+			r.Case("dry/"+okey, false)
 			bad := len(d.Fails) > 0
 			for _, cl := range d.Calls {
 				if cl.Failed && !(op.ErrOK && cl.Name == op.Name) {
@@ -780,13 +788,29 @@ func checkC04(c *lib.Ctx) {
 				// the property's own oracles (Wait/Close return, no hang, no leak) failed on a run whose only
 				// "fault" is the clean end of the stream after the last reply: that is a violation, not a harness problem
 				for _, f := range d.Fails {
-					r.Fail(lib.Failure{Kind: "oracle", Key: f.Key + "/" + op.Name, What: f.What + " (run without injected fault: the stream ends cleanly after the last reply)", Input: c04Case{Op: op.Name, Fault: "none"}, Actual: f.Act})
+					r.Fail(lib.Failure{Kind: "oracle", Key: f.Key + "/" + okey, What: f.What + " (run without injected fault: the stream ends cleanly after the last reply)", Input: none, Actual: f.Act})
 				}
 				continue
 			}
 			if bad {
-				r.Fail(lib.Failure{Kind: "tie", Key: "valid-run/" + op.Name, What: "scenario does not succeed without a fault (harness table or fake server wrong)", Input: c04Case{Op: op.Name, Fault: "none"}, Actual: d})
+				r.Fail(lib.Failure{Kind: "tie", Key: "valid-run/" + okey, What: "scenario does not succeed without a fault (harness table or fake server wrong)", Input: none, Actual: d})
 				continue
+			}
+			if p.variant == "" {
+				dryDefault[op.Name] = d
+			} else if dd, ok := dryDefault[op.Name]; ok {
+				// the options change HOW an operation talks to the server, never WHAT it returns
+				for _, cl := range d.Calls {
+					for _, dl := range dd.Calls {
+						if cl.Name == dl.Name && (cl.Summary != dl.Summary || cl.Failed != dl.Failed) {
+							r.Fail(lib.Failure{Kind: "oracle", Key: "result-depends-on-option/" + op.Name + "/" + p.variant, What: cl.Name + " returns another result under this option variant than under the default options, against the same server and without any fault",
+								Input: none, Expected: dl, Actual: cl})
+						}
+					}
+				}
+				if d.NReq != dd.NReq {
+					r.Hist("variant-changes-request-count/" + okey)
+				}
 			}
 			total := 0
 			bounds := []int{0}
@@ -795,11 +819,12 @@ func checkC04(c *lib.Ctx) {
 				bounds = append(bounds, total)
 			}
 			offs := map[int]bool{}
-			if thorough {
+			switch p.level {
+			case 3:
 				for n := 0; n <= total+1; n++ {
 					offs[n] = true
 				}
-			} else {
+			case 2, 1:
 				for _, b := range bounds {
 					for _, n := range []int{b - 1, b, b + 1} {
 						if n >= 0 {
@@ -807,8 +832,15 @@ func checkC04(c *lib.Ctx) {
 						}
 					}
 				}
-				for k := 0; k < 10; k++ {
-					offs[c.Rand.Intn(total+1)] = true
+				if p.level == 2 {
+					for k := 0; k < 10; k++ {
+						offs[c.Rand.Intn(total+1)] = true
+					}
+				}
+			default:
+				for _, b := range bounds {
+					offs[b] = true
+					offs[min(b+1+c.Rand.Intn(8), total)] = true
 				}
 			}
 			var sorted []int
@@ -816,25 +848,32 @@ func checkC04(c *lib.Ctx) {
 				sorted = append(sorted, n)
 			}
 			sort.Ints(sorted)
+			add := func(cs c04Case) {
+				cs.Op, cs.Opt = op.Name, p.variant
+				cases = append(cases, cs)
+			}
 			// ---- server→client: the stream ends (EOF) or the Read fails with an error value ----
 			rot := c.Rand.Intn(len(rkinds))
 			for i, n := range sorted {
-				cases = append(cases, c04Case{Op: op.Name, Fault: "cut", At: n}, c04Case{Op: op.Name, Fault: "err", At: n})
-				if thorough {
+				add(c04Case{Fault: "cut", At: n})
+				if p.level >= 1 {
+					add(c04Case{Fault: "err", At: n})
+				}
+				if p.level == 3 {
 					for _, k := range rkinds {
-						cases = append(cases, c04Case{Op: op.Name, Fault: "err", At: n, Err: k})
+						add(c04Case{Fault: "err", At: n, Err: k})
 					}
 				} else {
 					// every offset with one more value, rotating through the table
-					cases = append(cases, c04Case{Op: op.Name, Fault: "err", At: n, Err: rkinds[(i+rot)%len(rkinds)]})
+					add(c04Case{Fault: "err", At: n, Err: rkinds[(i+rot)%len(rkinds)]})
 				}
 			}
-			if !thorough {
+			if p.level == 2 {
 				// every value at the start of the stream, on a frame boundary, inside a length word and inside a body
 				for _, k := range rkinds {
 					b := bounds[c.Rand.Intn(len(bounds))]
 					for _, n := range []int{0, b, b + 1 + c.Rand.Intn(3), b + 4 + c.Rand.Intn(5)} {
-						cases = append(cases, c04Case{Op: op.Name, Fault: "err", At: min(n, total), Err: k})
+						add(c04Case{Fault: "err", At: min(n, total), Err: k})
 					}
 				}
 			}
@@ -847,33 +886,39 @@ func checkC04(c *lib.Ctx) {
 				}
 			}
 			values := func(k int) []string {
-				if thorough || own >= 2 {
+				switch {
+				case p.level == 3 || (p.level == 2 && own >= 2):
 					return wkinds
+				case p.level == 0:
+					return []string{wkinds[(rot+k)%len(wkinds)]}
 				}
-				v := append([]string(nil), wkindsFam...)
+				v := []string{}
+				if p.level == 2 {
+					v = append(v, wkindsFam...)
+				}
 				for j := 0; j < 2; j++ {
 					v = append(v, wkinds[(rot+2*k+j)%len(wkinds)])
 				}
 				return v
 			}
 			for k := 0; k <= d.NReq+1; k++ {
-				cases = append(cases, c04Case{Op: op.Name, Fault: "failinput", At: k})
+				add(c04Case{Fault: "failinput", At: k})
 				for _, e := range values(k) {
-					cases = append(cases, c04Case{Op: op.Name, Fault: "failinput", At: k, Err: e})
+					add(c04Case{Fault: "failinput", At: k, Err: e})
 				}
 			}
 			for k := 0; k <= d.NWrites+1; k++ {
-				cases = append(cases, c04Case{Op: op.Name, Fault: "failwrite", At: k})
+				add(c04Case{Fault: "failwrite", At: k})
 				for _, e := range values(k) {
-					cases = append(cases, c04Case{Op: op.Name, Fault: "failwrite", At: k, Err: e})
+					add(c04Case{Fault: "failwrite", At: k, Err: e})
 				}
 			}
 			// racing registrants
-			perRacer := 8
-			if thorough {
-				perRacer = 120
-			}
+			perRacer := map[int]int{3: 120, 2: 8, 1: 3, 0: 1}[p.level]
 			for racers := 1; racers <= 8; racers++ {
+				if p.level == 0 && racers != 2 && racers != 8 {
+					continue
+				}
 				for k := 0; k < perRacer; k++ {
 					fault := []string{"cut", "err"}[c.Rand.Intn(2)]
 					errv := ""
@@ -881,19 +926,66 @@ func checkC04(c *lib.Ctx) {
 						errv = rkinds[c.Rand.Intn(len(rkinds))]
 					}
 					// the racers' replies share the stream: offsets up to a few times the scenario's own stream
-					cases = append(cases, c04Case{Op: op.Name, Fault: fault, At: c.Rand.Intn(total*(1+racers) + 2), Racers: racers, Seed: c.Rand.Int63(), Err: errv})
+					add(c04Case{Fault: fault, At: c.Rand.Intn(total*(1+racers) + 2), Racers: racers, Seed: c.Rand.Int63(), Err: errv})
 				}
 				nw := 1
-				if thorough {
+				if p.level == 3 {
 					nw = 6
 				}
 				for k := 0; k < nw; k++ {
-					if thorough || racers%4 == 0 {
-						cases = append(cases, c04Case{Op: op.Name, Fault: "failinput", At: c.Rand.Intn(d.NReq*(1+racers) + 2), Racers: racers, Seed: c.Rand.Int63(), Err: wkindsAll[c.Rand.Intn(len(wkindsAll))]})
+					if p.level == 3 || racers%4 == 0 {
+						add(c04Case{Fault: "failinput", At: c.Rand.Intn(d.NReq*(1+racers) + 2), Racers: racers, Seed: c.Rand.Int63(), Err: wkindsAll[c.Rand.Intn(len(wkindsAll))]})
 					}
-					if thorough || racers%4 == 1 {
-						cases = append(cases, c04Case{Op: op.Name, Fault: "failwrite", At: c.Rand.Intn(d.NWrites*(1+racers) + 2), Racers: racers, Seed: c.Rand.Int63(), Err: wkindsAll[c.Rand.Intn(len(wkindsAll))]})
+					if p.level == 3 || racers%4 == 1 {
+						add(c04Case{Fault: "failwrite", At: c.Rand.Intn(d.NWrites*(1+racers) + 2), Racers: racers, Seed: c.Rand.Int63(), Err: wkindsAll[c.Rand.Intn(len(wkindsAll))]})
 					}
+				}
+			}
+		}
+		// ---- family "ssh": the same scenarios on a Client made by sftp.NewClient over an in-process SSH connection ----
+		// (session stdin as the writer, the stderr copier goroutine, Wait asking the session for the exit status)
+		sshOps := map[string]bool{"Stat": true, "ReadDir-batches": true, "File.Read": true, "File.ReadAt-concurrent": true, "File.WriteTo-concurrent": true,
+			"File.WriteAt-concurrent": true, "File.ReadFrom-concurrent": true, "File.ReadFrom-sized": true, "Walk-tree": true}
+		sshVars := []string{"", "copy-stderr", "mp-alias+copy-stderr", "fstat+req1", "mp-checked+req2+copy-stderr"}
+		nssh := 0
+		for _, op := range c04Ops() {
+			d, ok := dryDefault[op.Name]
+			if !ok || (!thorough && !sshOps[op.Name]) {
+				continue
+			}
+			variant := func() string { nssh++; return sshVars[nssh%len(sshVars)] }
+			add := func(cs c04Case) {
+				cs.Op, cs.Via, cs.Opt = op.Name, "ssh", variant()
+				cases = append(cases, cs)
+			}
+			add(c04Case{Fault: "none", Exit: "exit0"})
+			total := 0
+			offs := map[int]bool{0: true}
+			for _, f := range d.Frames {
+				total += f
+				offs[total] = true
+				offs[total-1-c.Rand.Intn(min(f, 9))] = true
+				if thorough {
+					offs[total-1], offs[total+1] = true, true
+				}
+			}
+			var sorted []int
+			for n := range offs {
+				sorted = append(sorted, n)
+			}
+			sort.Ints(sorted)
+			for _, n := range sorted {
+				for _, exit := range []string{"exit0", "exit3", ""} {
+					add(c04Case{Fault: "cut", At: n, Exit: exit, Seed: int64(c.Rand.Intn(2))})
+				}
+				add(c04Case{Fault: "err", At: n, Seed: int64(c.Rand.Intn(2))})
+			}
+			for k := 0; k <= d.NReq+1; k++ {
+				add(c04Case{Fault: "failinput", At: k})
+			}
+			for _, racers := range []int{1, 3, 8} {
+				for k := 0; k < map[bool]int{true: 6, false: 2}[thorough]; k++ {
+					add(c04Case{Fault: []string{"cut", "err", "failinput"}[c.Rand.Intn(3)], At: c.Rand.Intn(total*(1+racers)/4 + 2), Exit: []string{"exit0", "exit3", ""}[c.Rand.Intn(3)], Racers: racers, Seed: c.Rand.Int63()})
 				}
 			}
 		}
@@ -929,8 +1021,19 @@ func checkC04(c *lib.Ctx) {
 			}
 			continue
 		}
-		r.Case(fmt.Sprintf("%s/%s@%d/r%d/s%d/e%s", cs.Op, cs.Fault, cs.At, cs.Racers, cs.Seed, cs.Err), cs.Fault != "none")
+		r.Case(fmt.Sprintf("%s/%s%s@%d/r%d/s%d/e%s%s", cliOpKey(cs.Op, cs.Opt), cs.Via, cs.Fault, cs.At, cs.Racers, cs.Seed, cs.Err, cs.Exit), cs.Fault != "none")
+		if cs.Via != "" {
+			r.Hist("constructor/NewClient-over-" + cs.Via + "/" + cs.Fault + map[bool]string{true: "/" + cs.Exit, false: ""}[cs.Fault == "cut" && cs.Exit != ""])
+		} else {
+			r.Hist("constructor/NewClientPipe")
+		}
 		r.Hist("op/" + cs.Op)
+		r.Hist("option-variant/" + map[bool]string{true: "default", false: cs.Opt}[cs.Opt == ""])
+		for _, a := range strings.Split(cs.Opt, "+") {
+			if a != "" {
+				r.Hist("option/" + a)
+			}
+		}
 		r.Hist(fmt.Sprintf("fault/%s/racers=%d", cs.Fault, cs.Racers))
 		if cs.Fault == "err" || cs.Fault == "failinput" || cs.Fault == "failwrite" {
 			ev := cs.Err
@@ -959,6 +1062,16 @@ func checkC04(c *lib.Ctx) {
 		var res c04Res
 		json.Unmarshal(results[i], &res)
 		racerOK += res.RacerOK
+		if cs.Fault == "none" && cs.Via != "" {
+			// the fault-free run of the ssh family is a case of its own: it must succeed like the one over pipes
+			if op := c04OpByName(cs.Op); op != nil {
+				for _, cl := range res.Calls {
+					if cl.Failed && !(op.ErrOK && cl.Name == op.Name) {
+						r.Fail(lib.Failure{Kind: "tie", Key: "valid-run/ssh/" + cs.Op, What: "scenario does not succeed without a fault over the in-process SSH connection", Input: cs, Actual: res.Calls})
+					}
+				}
+			}
+		}
 		if res.Conn != nil && len(res.Fails) == 0 {
 			connLines = append(connLines, *res.Conn)
 			connInputs = append(connInputs, cs)
